@@ -206,7 +206,7 @@ pub fn write_evidence(
             "backend_mix": acc.backends,
             "components": {"real": info.real, "stub": info.stub},
             "exhaustive": false,
-            "exhaustive_within_each_sampled_scenario": acc.exhaustive_within_scenario,
+            "exhaustive_within_each_sampled_scenario": acc.exhaustive_within_scenario && acc.reach.get("enumeration_capped").copied().unwrap_or(0) == 0,
             "known_findings_seen": known.iter().collect::<Vec<_>>(),
         },
         "assumptions": info.assumptions,
